@@ -20,6 +20,10 @@ const genesis = int64(1700352000)
 
 func main() {
 	tz := os.Getenv("TZ")
+	if len(os.Args) > 1 && os.Args[1] == "client" {
+		fmt.Printf("# stat prod.tz:%s 1\n", tz)
+		os.Exit(clientProbe())
+	}
 	fmt.Printf("# stat prod.tz:%s 1\n", tz)
 	slot := func(t int64) {
 		s, err := glow.UnixToTimeslot(t)
